@@ -626,6 +626,7 @@ src_runner!(SliceSrc, Model);
 src_runner!(IterSrc, Model);
 src_runner!(GSliceSrc, Model);
 src_runner!(GIterSrc, Model);
+src_runner!(SliceSliceSrc, Model);
 
 /// An ExactSizeIterator that announces `ann` items but yields all of `it`.
 pub struct Lying<I> { pub it: I, pub ann: usize }
@@ -701,6 +702,24 @@ where T: Model + ZeroCopy + SerializeInner + TypeHash + AlignHash {
     }
     fn arb(&self, g: &mut Gen) -> AVal { Vec::<T>::arb(g).to_aval() }
     fn desc(&self) -> Value { json!({"k": "seriter", "elem": T::desc()}) }
+}
+/// `&[&[T]]`: a slice of deep-copy items that are slice references (serializes like `Vec<Vec<T>>`)
+impl<T> Runner for SliceSliceSrc<T>
+where T: Model + SerializeInner + TypeHash + AlignHash + epserde::traits::CopyType,
+      for<'a> &'a [&'a [T]]: SerializeInner,
+      for<'a> <&'a [&'a [T]] as SerializeInner>::SerType: TypeHash + AlignHash {
+    fn facts(&self) -> Value { src_facts::<&'static [&'static [T]]>() }
+    fn run(&self, case: &Value) -> Value {
+        let vv: Vec<Vec<T>> = Vec::<Vec<T>>::from_aval(&case["v"]);
+        let before = vv.to_aval();
+        let inner: Vec<&[T]> = vv.iter().map(|v| &v[..]).collect();
+        let mut o = { let s: &[&[T]] = &inner[..]; src_obs(&s, case) };
+        o["src_freed"] = json!(0);
+        o["src_same"] = json!(vv.to_aval() == before);
+        o
+    }
+    fn arb(&self, g: &mut Gen) -> AVal { Vec::<Vec<T>>::arb(g).to_aval() }
+    fn desc(&self) -> Value { json!({"k": "slice", "elem": {"k": "slice", "elem": T::desc()}}) }
 }
 use crate::universe::G;
 impl<T> Runner for GSliceSrc<T>
